@@ -307,6 +307,23 @@ func (c *Ctx) finderOf1(fn *types.Func) *finderInfo {
 	if !advance(loop.Body.List[idx+1]) {
 		return nil
 	}
+	// the search goes on exactly while there is somewhere to go: `node != nil`, or `node.d != nil`
+	// for the one link d it follows
+	if loop.Cond != nil {
+		cond := ast.Unparen(loop.Cond)
+		// `node != nil && <anything about the node>`: the nil test is the first conjunct
+		for {
+			be, isBin := cond.(*ast.BinaryExpr)
+			if !isBin || be.Op != token.LAND {
+				break
+			}
+			cond = ast.Unparen(be.X)
+		}
+		d := nilTestOn(cond, nodeObj)
+		if d == "" || (d != "." && !(len(fi.links) == 1 && fi.links[d])) {
+			return nil
+		}
+	}
 	return fi
 }
 
